@@ -34,6 +34,7 @@ from . import REPO  # noqa: F401  (puts the repo under test on sys.path)
 
 WATCHDOG = 20.0       # seconds; only ever decides "hang", never the order of events
 MAIN, SEL, ENV = 1, 2, 3
+RAW_WAKER = 90
 
 
 class Hang(Exception):
@@ -63,6 +64,8 @@ class Harness:
         self.ctl = None             # harness/selthread_s2c.Controller when a TLC behaviour is being forced
         self.pending_hs = []        # controlled mode: posted _handle_select calls not yet delivered
         self.small_waker = False    # shrink the waker's send buffer so that sends hit BlockingIOError
+        self.closedfds = set()      # user fds closed by the application (after unregistering them)
+        self.waker_fileno = None
 
     # -- identity / schedule perturbation
     def tid(self):
@@ -110,11 +113,15 @@ class Harness:
             self._append(a, args, obs)
 
     def idx(self, fd):
+        if isinstance(fd, int):
+            if fd == self.waker_fileno:
+                return RAW_WAKER            # the bare fileno of _waker_r is not the key under which it is registered
+            return self.fdidx.get(fd, 99)
         try:
-            n = fd if isinstance(fd, int) else fd.fileno()
+            n = fd.fileno()
         except Exception:
             return 99
-        return self.fdidx.get(n, 99)
+        return 0 if n == self.waker_fileno else 99
 
     def idxs(self, fds):
         return [self.idx(f) for f in fds]
@@ -280,7 +287,7 @@ def make_socket_shim(H):
             r, w = _real_socket.socketpair(*a, **k)
             if H.small_waker:
                 w.setsockopt(_real_socket.SOL_SOCKET, _real_socket.SO_SNDBUF, 1)   # clamps to ~6 one-byte sends
-            H.fdidx[r.fileno()] = 0
+            H.waker_fileno = r.fileno()
             H.waker_pair = (r, w)
             return TSock(r), TSock(w)
 
@@ -299,12 +306,15 @@ def make_select_shim(H):
             H.ev("sel_begin", args={"r": sorted(H.idxs(r)), "w": sorted(H.idxs(w))})
             m = H.gate("sel_end")
             if m is not None and m[0] == "go" and m[1] is not None:
-                return self._forced(r, w, x, m[1])
+                if m[1].get("err"):
+                    timeout = 0          # the behaviour takes the EBADF branch: the real call raises at once
+                else:
+                    return self._forced(r, w, x, m[1])
             t0 = time.monotonic()
             try:
                 rs, ws, xs = _real_select.select(r, w, x, WATCHDOG if timeout is None else timeout)
             except BaseException as e:
-                H.ev("sel_err", args=[type(e).__name__])
+                H.ev("sel_err", args=[type(e).__name__, getattr(e, "errno", None) or 0])
                 raise
             if timeout is None and not (rs or ws or xs) and time.monotonic() - t0 >= WATCHDOG * 0.9:
                 H.hung = True
@@ -319,11 +329,12 @@ def make_select_shim(H):
             """Controlled mode: the behaviour chose the result (any legal one: order and, for fds
             that became ready during the call, membership are the kernel's choice).  It is checked
             against the real kernel state and returned in the chosen order."""
-            rs, ws, xs = _real_select.select(r, w, x, 0)
+            alive = lambda fds: [f for f in fds if H.idx(f) not in H.closedfds]
+            rs, ws, xs = _real_select.select(alive(r), alive(w), alive(x), 0)
             byidx_r = {H.idx(f): f for f in r}
             byidx_w = {H.idx(f): f for f in w}
             real_r, real_w = set(H.idxs(rs)), set(H.idxs(list(ws) + list(xs)))
-            if not (set(want["rs"]) <= real_r and set(want["ws"]) <= real_w):
+            if not (set(want["rs"]) - H.closedfds <= real_r and set(want["ws"]) - H.closedfds <= real_w):
                 H.error("forced select: behaviour wants %r but the kernel reports r=%r w=%r"
                         % (want, sorted(real_r), sorted(real_w)))
             out_r = [byidx_r[i] for i in want["rs"] if i in byidx_r]
@@ -381,6 +392,7 @@ class Run:
         self.max_events = max_events
         self.H = Harness(seed, nf, jitter)
         self.socks = {}
+        self.fdnum = {}
         self.peers = {}
         self.done = _real_threading.Event()
         self.fatal = None
@@ -394,7 +406,7 @@ class Run:
     def env_ready(self, k, f):
         H = self.H
         with H.lock:
-            if f in H.ready[k]:
+            if f in H.ready[k] or f in H.closedfds:
                 return False
             if k == "r":
                 self.peers[f].send(b"x")
@@ -431,17 +443,39 @@ class Run:
 
     def reg_op(self, op, k, f):
         H = self.H
+        if op == "add" and f in H.closedfds:
+            op = "rem"                   # the application never registers an fd it has closed
         H.gate("reg")
         H.ev("reg", args=[op, k, f])
         st = self.st
+        fd = self.fdnum[f]               # registered as bare ints, as IOLoop.add_handler does
         if op == "add":
-            (st.add_reader if k == "r" else st.add_writer)(self.socks[f], self._callback, k, f)
+            (st.add_reader if k == "r" else st.add_writer)(fd, self._callback, k, f)
             H.reg[k].add(f)
         else:
-            (st.remove_reader if k == "r" else st.remove_writer)(self.socks[f])
+            (st.remove_reader if k == "r" else st.remove_writer)(fd)
             if f in H.reg[k]:
                 H.reg[k].discard(f)
                 H.inel[(k, f)] = H.inel.get((k, f), 0) + 1
+
+    def close_fd(self, f=None):
+        """The application closes a user fd that is registered nowhere (the situation the EBADF
+        branch of _run_select exists for: the selector thread may still hold it)."""
+        H = self.H
+        if f is None:
+            cand = [g for g in range(1, self.nf + 1)
+                    if g not in H.closedfds and g not in H.reg["r"] and g not in H.reg["w"]]
+            if not cand:
+                return False
+            f = self.rng.choice(cand)
+        H.gate("fdclose")
+        with H.lock:
+            self.socks[f].close()
+            H.closedfds.add(f)
+            H.ready["r"].discard(f)
+            H.ready["w"].discard(f)
+            H._append("fdclose", [f], None)
+        return True
 
     def do_close(self, how):
         H = self.H
@@ -478,6 +512,8 @@ class Run:
                 self.reg_op(*m[1:])
             elif m[0] == "close":
                 self.do_close("close")
+            elif m[0] == "closefd":
+                self.close_fd(m[1])
             elif m[0] == "return":
                 return
             else:
@@ -503,6 +539,8 @@ class Run:
                     self.reg_op(rng.choice(("add", "rem")), rng.choice("rw"), rng.randint(1, self.nf))
             elif x < (0.73 if k == "r" else 0.78) and not self.close_called and self.allow_cb_close:
                 self.do_close("close")
+            elif x < (0.80 if k == "r" else 0.85) and self.allow_fdclose:
+                self.close_fd()
             else:
                 break
             H.jitter()
@@ -522,6 +560,10 @@ class Run:
             self.pre_ops += [("reg", "add", rng.choice("rw"), rng.randint(1, self.nf)) for _ in range(rng.randint(5, 9))]
         self.post_ops = [("reg", rng.choice(("add", "rem")), rng.choice("rw"), rng.randint(1, self.nf))
                          for _ in range(rng.choice((0, 0, 1, 2)))]
+        self.allow_fdclose = rng.random() < 0.4
+        if self.allow_fdclose:
+            for _ in range(rng.choice((1, 1, 2))):
+                ops.insert(rng.randint(0, len(ops)), ("closefd",))
         self.ops = ops
         self.env_ops = [(rng.choice("rrrw"), rng.randint(1, self.nf)) for _ in range(rng.randint(self.nenv // 2, self.nenv))]
 
@@ -561,6 +603,7 @@ class Run:
                 b.setblocking(False)
                 a.setsockopt(_real_socket.SOL_SOCKET, _real_socket.SO_SNDBUF, 4096)
                 self.socks[f], self.peers[f] = a, b
+                self.fdnum[f] = a.fileno()
                 H.fdidx[a.fileno()] = f
             self.finishing = False
             self._plan()
@@ -630,7 +673,16 @@ class Run:
             return
         if self.ops and not self.closed:
             op = self.ops.pop(0)
-            self.reg_op(*op[1:])
+            if op[0] == "closefd":
+                # remove it everywhere first (each removal wakes the selector thread), then close it
+                f = self.rng.randint(1, self.nf)
+                if f not in H.closedfds:
+                    for k in "rw":
+                        if f in H.reg[k]:
+                            self.reg_op("rem", k, f)
+                    self.close_fd(f)
+            else:
+                self.reg_op(*op[1:])
             return self._later(self._next_step)
         if not self.close_called:
             if not getattr(self, "_waited", False):
